@@ -21,6 +21,8 @@ import (
 	"verif/harness/hlib"
 )
 
+var hangs int // calls that did not finish within the guard: stop exploring after two
+
 type kerr int
 
 func (k kerr) Error() string { return "scripted error " + strconv.Itoa(int(k)) }
@@ -240,6 +242,7 @@ func runCopier(r *hlib.Run, rs []readRes, ws []writeRes) {
 		} else if len(sent) > 1 {
 			e = "many"
 		}
+		sort.Slice(log, func(i, j int) bool { return log[i] < log[j] }) // the order of the two Close calls is not part of the property
 		return fmt.Sprintf("calls=%s;err=%s;closes=%s", callsTok(writer.calls), e, string(log))
 	}()
 	lhs := "copier " + readsTok(rs) + " " + writesTok(ws)
@@ -276,6 +279,7 @@ loop:
 			}
 		case <-timeout:
 			chanState = "open"
+			hangs++
 			break loop
 		}
 	}
@@ -342,6 +346,7 @@ func runLive(r *hlib.Run, rng *hlib.Rng) {
 	case <-done:
 	case <-time.After(10 * time.Second):
 		hung = true
+		hangs++
 	}
 	closer, other := xc, yc
 	if who == "y" {
@@ -352,9 +357,11 @@ func runLive(r *hlib.Run, rng *hlib.Rng) {
 	nerr := 0
 	chanState := "open"
 	if !hung {
-		closer.Write(tail)
-		closer.Close()
 		fin := make(chan struct{})
+		go func() {
+			closer.Write(tail)
+			closer.Close()
+		}()
 		go func() {
 			b, err := io.ReadAll(other) // until EOF
 			gotTail = b
@@ -384,6 +391,7 @@ func runLive(r *hlib.Run, rng *hlib.Rng) {
 					nerr += 100
 				}
 			case <-timeout:
+				hangs++
 				break loop
 			}
 		}
@@ -424,11 +432,11 @@ func main() {
 		rs := genReads(rng)
 		runCopier(r, rs, genWrites(rng, rs))
 	}
-	for i := 0; i < np; i++ {
+	for i := 0; i < np && hangs < 2; i++ {
 		ar, br := genReads(rng), genReads(rng)
 		runPipe2(r, ar, genWrites(rng, br), br, genWrites(rng, ar))
 	}
-	for i := 0; i < nl; i++ {
+	for i := 0; i < nl && hangs < 2; i++ {
 		runLive(r, rng)
 	}
 	r.Finish()
